@@ -1,0 +1,53 @@
+//go:build verif
+
+// Contracts for package project (comment-only; read by /verif/govc, ignored by the compiler).
+package project
+
+// ---------------------------------------------------------------- C19: configuration file format
+
+// A TOML bare key is a non-empty run of A-Z a-z 0-9 _ -.
+//@ func project.isPlainRune
+//@   ensures plain: result == ((65 <= r && r <= 90) || (97 <= r && r <= 122) || (48 <= r && r <= 57) || r == 95 || r == 45)
+
+//@ func project.WriteConfigFile$3
+//@   ensures negates: result == !((65 <= r && r <= 90) || (97 <= r && r <= 122) || (48 <= r && r <= 57) || r == 95 || r == 45)
+
+//   n_emit[format] - lines emitted with the given format by this goroutine
+//@ ghost n_emit strintmap threadlocal
+//@ func project.WriteConfigFile$1
+//@   ensures counted: n_emit[format] == old(n_emit)[format] + 1
+//@   ensures others: forall g: string :: g != format ==> n_emit[g] == old(n_emit)[g]
+//@   modifies n_emit, deref(has)
+//@ func project.WriteConfigFile$2
+//@   ensures counted: n_emit[format] == old(n_emit)[format] + 1
+//@   ensures others: forall g: string :: g != format ==> n_emit[g] == old(n_emit)[g]
+//@   modifies n_emit, deref(has)
+
+// Every populated field is written exactly once, every requirement gets one line, and a requirement
+// name is written bare only if it is a valid bare key (in particular: not empty).
+//@ func project.WriteConfigFile
+//@   requires c != nil
+//@   ensures name-once: result == nil ==> n_emit["name = %v\n"] == old(n_emit)["name = %v\n"] + ite(c.Name != "", 1, 0)
+//@   ensures version-once: result == nil ==> n_emit["version = %v\n"] == old(n_emit)["version = %v\n"] + ite(c.Version != "", 1, 0)
+//@   ensures ignore-once: result == nil ==> n_emit["ignore = %v\n"] == old(n_emit)["ignore = %v\n"] + ite(len(c.Ignore) != 0, 1, 0)
+//@   callsite WriteConfigFile$1@2: assert bare-key-is-valid: mustQuote || len(name) > 0
+//@   modifies heap, n_emit
+//@   loop 0: invariant n_emit["name = %v\n"] == old(n_emit)["name = %v\n"] + ite(c.Name != "", 1, 0) && n_emit["version = %v\n"] == old(n_emit)["version = %v\n"] + ite(c.Version != "", 1, 0) && n_emit["ignore = %v\n"] == old(n_emit)["ignore = %v\n"] + ite(len(c.Ignore) != 0, 1, 0)
+//@   loop 0: step one-line-per-requirement: when true ensures n_emit["%v = {path = %v, version = %v}\n"] == old(n_emit["%v = {path = %v, version = %v}\n"]) + 1
+
+// Versioned paths: the suffix after the last '@' of the final path element.
+//@ func project.SplitPathVersion
+//@   ensures no-version: result.1 == "" ==> (result.0 == p || (len(result.0) + 1 == len(p) && p[len(result.0)] == 64))
+//@   ensures split: result.1 != "" ==> (len(result.0) + 1 + len(result.1) == len(p) && p[len(result.0)] == 64 && result.0 == p[:len(result.0)] && result.1 == p[len(result.0) + 1:])
+//@   loop 0: invariant -1 <= i && i < len(p)
+//@   loop 0: invariant forall j: int :: i < j && j < len(p) ==> (p[j] != 47 && p[j] != 64)
+
+// The major-version suffix is dropped exactly for "", v0 and v1.
+//@ func project.JoinPathVersion
+//@   ensures dropped: (major == "" || major == "v0" || major == "v1") ==> result == p
+//@   ensures kept: !(major == "" || major == "v0" || major == "v1") ==> (exists a: slice :: result == sprintf("%v@%v", a))
+
+// encodeValue renders one TOML value through go-toml (dependency) into a local builder: assumed to
+// leave the caller-visible heap and the emission counters alone.
+//@ func project.encodeValue
+//@   trusted
